@@ -683,6 +683,265 @@ theorem runDivide_after_long {n : Nat} {s s1 : Store} {subs : List Period} {c : 
       rw [hdt]
       exact ih (fun lx hlx => hc lx (List.mem_cons_of_mem _ hlx)) h2 t' hwt' hmt
 
+/-! ### any accepted order against shortest-first (laminar families) -/
+
+theorem sameStore_refl (s : Store) : SameStore s s := fun _ => rfl
+theorem sameStore_symm {s t : Store} (h : SameStore s t) : SameStore t s := fun q => (h q).symm
+theorem sameStore_trans {s t u : Store} (h1 : SameStore s t) (h2 : SameStore t u) : SameStore s u :=
+  fun q => (h1 q).trans (h2 q)
+
+theorem wf_of_sameStore {n : Nat} {s t : Store} (h : SameStore s t) (hwf : WF n s) : WF n t :=
+  fun q v hv => hwf q v (by rw [h q]; exact hv)
+
+theorem tally_fold_congr (s s' : Store) (l : List Period) (hag : ∀ q, q ∈ l → sget s q = sget s' q)
+    (acc : Vec × Nat) : l.foldl (tallyStep s) acc = l.foldl (tallyStep s') acc := by
+  induction l generalizing acc with
+  | nil => rfl
+  | cons x xs ih =>
+    simp only [List.foldl_cons]
+    have e : tallyStep s acc x = tallyStep s' acc x := by
+      unfold tallyStep; rw [hag x List.mem_cons_self]
+    rw [e]
+    exact ih (fun q hq => hag q (List.mem_cons_of_mem _ hq)) _
+
+theorem tally_congr (s s' : Store) (l : List Period) (a : Vec) (hag : ∀ q, q ∈ l → sget s q = sget s' q) :
+    tally s l a = tally s' l a := tally_fold_congr s s' l hag (a, 0)
+
+theorem dispatchOn_congr {s s' : Store} (h : SameStore s s') (l : List Period) (c : Vec) :
+    SameStore (dispatchOn s l c) (dispatchOn s' l c) := by
+  intro q; rw [sget_dispatchOn, sget_dispatchOn, h q]
+
+/-- `divide` only reads the store through `get_array` -/
+theorem divideOn_congr {k : VKind} {s s' t : Store} {l : List Period} {a : Vec} (h : SameStore s s')
+    (hd : divideOn k s l a = .ok t) : ∃ t', divideOn k s' l a = .ok t' ∧ SameStore t t' := by
+  have e := tally_congr s s' l a (fun q _ => h q)
+  unfold divideOn at hd ⊢
+  simp only [← e] at hd ⊢
+  split at hd
+  · rename_i hpos
+    rw [if_pos hpos]
+    injection hd with hd; subst hd
+    exact ⟨_, rfl, dispatchOn_congr h l _⟩
+  · rename_i hpos
+    rw [if_neg hpos]
+    split at hd
+    · rename_i hz
+      rw [if_pos hz]
+      injection hd with hd; subst hd
+      exact ⟨_, rfl, h⟩
+    · cases hd
+
+theorem runDivide_congr {k : VKind} {s s' t : Store} {calls : List (List Period × Vec)} (h : SameStore s s')
+    (hr : runDivide k s calls = .ok t) : ∃ t', runDivide k s' calls = .ok t' ∧ SameStore t t' := by
+  induction calls generalizing s s' with
+  | nil => simp only [runDivide] at hr ⊢; injection hr with hr; subst hr; exact ⟨_, rfl, h⟩
+  | cons x xs ih =>
+    obtain ⟨l, a⟩ := x
+    simp only [runDivide] at hr ⊢
+    cases hd : divideOn k s l a with
+    | error e => rw [hd] at hr; cases hr
+    | ok s1 =>
+      rw [hd] at hr
+      obtain ⟨s1', hd', hs1⟩ := divideOn_congr h hd
+      rw [hd']
+      exact ih hs1 hr
+
+theorem knownSum_congr (s s' : Store) (l : List Period) (hag : ∀ q, q ∈ l → sget s q = sget s' q) (i : Nat) :
+    knownSum s l i = knownSum s' l i := by
+  unfold knownSum
+  congr 1
+  apply List.map_congr_left
+  intro q hq
+  unfold entAt; rw [hag q hq]
+
+theorem unknownCount_congr (s s' : Store) (l : List Period) (hag : ∀ q, q ∈ l → sget s q = sget s' q) :
+    unknownCount s l = unknownCount s' l := by
+  unfold unknownCount
+  congr 1
+  apply List.filter_congr
+  intro q hq
+  rw [hag q hq]
+
+theorem runDivide_two (k : VKind) (s t : Store) (l1 l2 : List Period) (a1 a2 : Vec) :
+    runDivide k s [(l1, a1), (l2, a2)] = .ok t ↔
+      ∃ s1, divideOn k s l1 a1 = .ok s1 ∧ divideOn k s1 l2 a2 = .ok t := by
+  simp only [runDivide]
+  cases h1 : divideOn k s l1 a1 with
+  | error e => simp
+  | ok s1 =>
+    simp only
+    cases h2 : divideOn k s1 l2 a2 with
+    | error e => simp [h2]
+    | ok s2 => simp [h2]
+
+/-- two inputs on disjoint sets of pieces commute -/
+theorem divide_swap_disjoint {n : Nat} {s t : Store} {l1 l2 : List Period} {a1 a2 : Vec} (hwf : WF n s)
+    (h1 : a1.length = n) (h2 : a2.length = n) (hdis : ∀ q, q ∈ l1 → q ∉ l2)
+    (hr : runDivide .num s [(l1, a1), (l2, a2)] = .ok t) :
+    ∃ t', runDivide .num s [(l2, a2), (l1, a1)] = .ok t' ∧ SameStore t' t := by
+  obtain ⟨s1, hd1, hd2⟩ := (runDivide_two _ _ _ _ _ _ _).mp hr
+  subst h1
+  obtain ⟨c1, hc1, hf1, hsum1, _⟩ := divideOn_ok_spec hwf hd1
+  have hw1 : WF a1.length s1 := filled_wf hf1 hwf hc1
+  obtain ⟨c2, hc2, hf2, hsum2, _⟩ := divideOn_ok_spec (h2 ▸ hw1) hd2
+  have hag2 : ∀ q, q ∈ l2 → sget s1 q = sget s q := by
+    intro q hq
+    have hq1 : q ∉ l1 := fun h => hdis q h hq
+    rw [hf1 q]; cases sget s q <;> simp [hq1]
+  obtain ⟨s2, hd2', hf2'⟩ := divideOn_of_spec (s := s) (subs := l2) (a := a2) (c := c2) (h2 ▸ hwf) hc2
+    (fun i _ => by rw [hsum2 i, knownSum_congr s1 s l2 hag2, unknownCount_congr s1 s l2 hag2])
+  have hw2 : WF a1.length s2 := filled_wf hf2' hwf (by rw [hc2, h2])
+  have hag1 : ∀ q, q ∈ l1 → sget s2 q = sget s q := by
+    intro q hq
+    have hq2 : q ∉ l2 := hdis q hq
+    rw [hf2' q]; cases sget s q <;> simp [hq2]
+  obtain ⟨s21, hd1', hf1'⟩ := divideOn_of_spec (s := s2) (subs := l1) (a := a1) (c := c1) hw2 hc1
+    (fun i _ => by rw [hsum1 i, knownSum_congr s2 s l1 hag1, unknownCount_congr s2 s l1 hag1])
+  refine ⟨s21, (runDivide_two _ _ _ _ _ _ _).mpr ⟨s2, hd2', hd1'⟩, ?_⟩
+  intro q
+  rw [hf1' q, hf2' q, hf2 q, hf1 q]
+  cases sget s q with
+  | some v => rfl
+  | none =>
+    by_cases hq1 : q ∈ l1
+    · have hq2 : q ∉ l2 := hdis q hq1
+      simp [hq1, hq2]
+    · by_cases hq2 : q ∈ l2 <;> simp [hq1, hq2]
+
+/-- an input on pieces inside a longer input given just before it: accepted in the other order too,
+same store -/
+theorem divide_swap_nested {n : Nat} {s t : Store} {L l : List Period} {a x : Vec} (hwf : WF n s)
+    (h1 : a.length = n) (h2 : x.length = n) (hsub : ∀ q, q ∈ l → q ∈ L)
+    (hr : runDivide .num s [(L, a), (l, x)] = .ok t) :
+    ∃ t', runDivide .num s [(l, x), (L, a)] = .ok t' ∧ SameStore t' t := by
+  obtain ⟨s1, hd1, hd2⟩ := (runDivide_two _ _ _ _ _ _ _).mp hr
+  subst h1
+  have hr' : runDivide .num s1 [(l, x)] = .ok t := by simp only [runDivide, hd2]
+  have hc : ∀ lx, lx ∈ [(l, x)] → (∀ q, q ∈ lx.1 → q ∈ L) ∧ lx.2.length = a.length := by
+    intro lx hlx
+    rw [List.mem_singleton] at hlx; subst hlx; exact ⟨hsub, h2⟩
+  obtain ⟨c, hcl, hf, hsum, _⟩ := divideOn_ok_spec hwf hd1
+  have hw1 : WF a.length s1 := filled_wf hf hwf hcl
+  obtain ⟨e, s3, hr3, hm, hw3⟩ := runDivide_after_long hcl hf hw1 [(l, x)] hc t hr' s hwf (mid_refl s L c)
+  obtain ⟨s4, hd4, hsame⟩ := mid_final hw3 hcl hf hm hsum
+  subst e
+  have hdl : divideOn .num s l x = .ok s3 := by
+    simp only [runDivide] at hr3
+    cases hdl : divideOn .num s l x with
+    | error e => rw [hdl] at hr3; cases hr3
+    | ok s3' => rw [hdl] at hr3; simpa using hr3
+  exact ⟨s4, (runDivide_two _ _ _ _ _ _ _).mpr ⟨s3, hdl, hd4⟩, hsame⟩
+
+/-- stable insertion by number of pieces: `c` goes after every call with strictly fewer pieces -/
+def insertCall (c : List Period × Vec) : List (List Period × Vec) → List (List Period × Vec)
+  | [] => [c]
+  | d :: r => if d.1.length < c.1.length then d :: insertCall c r else c :: d :: r
+
+/-- shortest-first order (stable insertion sort by number of pieces) -/
+def shortestFirst : List (List Period × Vec) → List (List Period × Vec)
+  | [] => []
+  | c :: r => insertCall c (shortestFirst r)
+
+/-- nested-or-disjoint: a call with fewer pieces lies inside or apart from a call with more -/
+def Laminar (calls : List (List Period × Vec)) : Prop :=
+  ∀ c, c ∈ calls → ∀ d, d ∈ calls → d.1.length < c.1.length →
+    (∀ q, q ∈ d.1 → q ∈ c.1) ∨ (∀ q, q ∈ c.1 → q ∉ d.1)
+
+instance (calls : List (List Period × Vec)) : Decidable (Laminar calls) := by
+  unfold Laminar; infer_instance
+
+theorem mem_insertCall (c x : List Period × Vec) (l : List (List Period × Vec)) :
+    x ∈ insertCall c l ↔ x = c ∨ x ∈ l := by
+  induction l with
+  | nil => simp [insertCall]
+  | cons d r ih =>
+    unfold insertCall
+    split
+    · simp only [List.mem_cons, ih]; tauto
+    · simp only [List.mem_cons]
+
+theorem mem_shortestFirst (x : List Period × Vec) (l : List (List Period × Vec)) :
+    x ∈ shortestFirst l ↔ x ∈ l := by
+  induction l with
+  | nil => simp [shortestFirst]
+  | cons c r ih => simp only [shortestFirst, mem_insertCall, ih, List.mem_cons]
+
+theorem runDivide_cons2 (k : VKind) (s t : Store) (c d : List Period × Vec) (r : List (List Period × Vec)) :
+    runDivide k s (c :: d :: r) = .ok t ↔ ∃ s2, runDivide k s [c, d] = .ok s2 ∧ runDivide k s2 r = .ok t := by
+  obtain ⟨c1, c2⟩ := c
+  obtain ⟨d1, d2⟩ := d
+  simp only [runDivide]
+  cases h1 : divideOn k s c1 c2 with
+  | error e => simp
+  | ok s1 =>
+    simp only
+    cases h2 : divideOn k s1 d1 d2 with
+    | error e => simp
+    | ok s2 => simp
+
+/-- moving a call from the front to its shortest-first position -/
+theorem runDivide_insertCall {n : Nat} (c : List Period × Vec) (hc : c.2.length = n)
+    (r : List (List Period × Vec)) (hr : ∀ d, d ∈ r → d.2.length = n)
+    (hlam : ∀ d, d ∈ r → d.1.length < c.1.length →
+      (∀ q, q ∈ d.1 → q ∈ c.1) ∨ (∀ q, q ∈ c.1 → q ∉ d.1))
+    (s t : Store) (hwf : WF n s) (h : runDivide .num s (c :: r) = .ok t) :
+    ∃ t', runDivide .num s (insertCall c r) = .ok t' ∧ SameStore t' t := by
+  induction r generalizing s t with
+  | nil => exact ⟨t, h, sameStore_refl t⟩
+  | cons d r ih =>
+    unfold insertCall
+    split
+    · rename_i hlt
+      obtain ⟨s2, h2, hrest⟩ := (runDivide_cons2 _ _ _ _ _ _).mp h
+      have hd := hr d List.mem_cons_self
+      obtain ⟨c1, c2⟩ := c
+      obtain ⟨d1, d2⟩ := d
+      simp only at hc hd hlt
+      have hswap : ∃ s2', runDivide .num s [(d1, d2), (c1, c2)] = .ok s2' ∧ SameStore s2' s2 := by
+        rcases hlam (d1, d2) List.mem_cons_self hlt with hin | hdis
+        · exact divide_swap_nested hwf hc hd hin h2
+        · exact divide_swap_disjoint hwf hc hd hdis h2
+      obtain ⟨s2', hs2', hsame2⟩ := hswap
+      obtain ⟨t2, ht2, hsamet⟩ := runDivide_congr (sameStore_symm hsame2) hrest
+      obtain ⟨sd, hdd, hcc⟩ := (runDivide_two _ _ _ _ _ _ _).mp hs2'
+      have hwd : WF n sd := divideOn_wf hwf hd hdd
+      have hrun : runDivide .num sd ((c1, c2) :: r) = .ok t2 := by
+        simp only [runDivide, hcc]; exact ht2
+      obtain ⟨t3, ht3, hsame3⟩ := ih (fun x hx => hr x (List.mem_cons_of_mem _ hx))
+        (fun x hx => hlam x (List.mem_cons_of_mem _ hx)) sd t2 hwd hrun
+      refine ⟨t3, ?_, sameStore_trans hsame3 (sameStore_symm hsamet)⟩
+      simp only [runDivide, hdd]
+      exact ht3
+    · exact ⟨t, h, sameStore_refl t⟩
+
+/-- **any accepted order of a nested-or-disjoint family of divide inputs gives the same store as the
+shortest-first order, which is accepted too** -/
+theorem runDivide_shortestFirst {n : Nat} (calls : List (List Period × Vec))
+    (hlen : ∀ d, d ∈ calls → d.2.length = n) (hlam : Laminar calls)
+    (s t : Store) (hwf : WF n s) (h : runDivide .num s calls = .ok t) :
+    ∃ t', runDivide .num s (shortestFirst calls) = .ok t' ∧ SameStore t' t := by
+  induction calls generalizing s t with
+  | nil => exact ⟨t, h, sameStore_refl t⟩
+  | cons c r ih =>
+    obtain ⟨c1, c2⟩ := c
+    simp only [runDivide] at h
+    cases hd : divideOn .num s c1 c2 with
+    | error e => rw [hd] at h; cases h
+    | ok s1 =>
+      rw [hd] at h
+      have hc := hlen (c1, c2) List.mem_cons_self
+      have hw1 : WF n s1 := divideOn_wf hwf hc hd
+      have hlam' : Laminar r := fun a ha b hb => hlam a (List.mem_cons_of_mem _ ha) b (List.mem_cons_of_mem _ hb)
+      obtain ⟨t1, ht1, hsame1⟩ := ih (fun d hd => hlen d (List.mem_cons_of_mem _ hd)) hlam' s1 t hw1 h
+      have hrun : runDivide .num s ((c1, c2) :: shortestFirst r) = .ok t1 := by
+        simp only [runDivide, hd]; exact ht1
+      obtain ⟨t2, ht2, hsame2⟩ := runDivide_insertCall (c1, c2) hc (shortestFirst r)
+        (fun d hd => hlen d (List.mem_cons_of_mem _ ((mem_shortestFirst d r).mp hd)))
+        (fun d hd hlt => hlam (c1, c2) List.mem_cons_self d
+          (List.mem_cons_of_mem _ ((mem_shortestFirst d r).mp hd)) hlt)
+        s t1 hwf hrun
+      exact ⟨t2, ht2, sameStore_trans hsame2 hsame1⟩
+
 /-- several dispatch inputs: the first input covering a piece decides its value -/
 theorem sget_runDispatch (s : Store) (calls : List (List Period × Vec)) (q : Period) :
     sget (runDispatch s calls) q =
